@@ -106,6 +106,11 @@ func reorgScenarioOpts(c *pbt.C, id string, check func(c *pbt.C, key string, b, 
 				c.Failf(id+"/setup", "follower cannot sync the prefix: %v", err)
 			}
 		}
+		if c.Bool("eventReaders") {
+			// queries that run at the instant a momentum is inserted or deleted (they only read)
+			b.WatchEvents()
+			c.Class("queries-at-momentum-events")
+		}
 		h2 := sim.NewHistOn(c, h.W, a2, h)
 		// branch X on A
 		depthX := c.Int("x.depth", 1, pbt.Scale(8, 29))
